@@ -173,15 +173,17 @@ func b2i(b bool) int {
 	return 0
 }
 
-// usage: c01 <mode> [flags]; modes: garble
+// usage: c01 <mode> [flags]; modes: garble, hist (hist.go)
 func main() {
 	if len(os.Args) < 2 {
-		fmt.Fprintln(os.Stderr, "usage: c01 garble [flags]")
+		fmt.Fprintln(os.Stderr, "usage: c01 garble|hist [flags]")
 		os.Exit(2)
 	}
 	switch os.Args[1] {
 	case "garble":
 		os.Exit(c01(os.Args[2:]))
+	case "hist":
+		os.Exit(c01hist(os.Args[2:]))
 	default:
 		fmt.Fprintf(os.Stderr, "unknown mode %q\n", os.Args[1])
 		os.Exit(2)
